@@ -356,17 +356,23 @@ def ref_tad(layout, recs):
             else:
                 events.append(dict(time=t, dose=True, obs=False, evid=1, ss=0, row=None))
         acc, dosetime = walk_doseid(events)
-        after_reset = False  # a reset record since the last dose: the documentation is silent
-        for e, a in zip(events, acc):
-            if e["row"] is None:
-                after_reset = False
-                continue
-            if e["evid"] >= 3:
-                after_reset = True
+        # a reset record between the dose of the period and the record: the documentation is silent
+        pos_reset = None
+        pos_dose = {}
+        ndose = 0
+        for p, (e, a) in enumerate(zip(events, acc)):
             if e["dose"]:
-                after_reset = False
+                ndose += 1
+                pos_dose[ndose] = p
+            if e["evid"] >= 3:
+                pos_reset = p
+            if e["row"] is None:
+                continue
+            if e["dose"]:
                 out[e["row"]] = {0.0}
-            elif 0 in a or not e["obs"] or after_reset:
+            elif 0 in a or not e["obs"]:
+                out[e["row"]] = None
+            elif pos_reset is not None and any(pos_reset > pos_dose[d] for d in a):
                 out[e["row"]] = None
             else:
                 out[e["row"]] = {e["time"] - dosetime[d] for d in a}
